@@ -629,7 +629,7 @@ func oneSide(name string, which int, left bool) producer {
 
 // flatMapProducer: sub-iterators of every flavour, including the zero value and iterator.Empty.
 func flatMapProducer(x *mc.X, inputs [][]int, name string, pkg bool) {
-	g := x.Choose(4, "sub-iterators")
+	g := x.Choose(5, "sub-iterators")
 	data := pickInput(x, inputs)
 	sub := func(v int) []int {
 		switch g {
@@ -643,6 +643,15 @@ func flatMapProducer(x *mc.X, inputs [][]int, name string, pkg bool) {
 		case 2:
 			return nil
 		}
+		if g == 4 { // inner lengths 0, 1, 2 by element: every kind of boundary inside the output
+			switch v {
+			case 1:
+				return []int{v}
+			case 2:
+				return []int{v, v + 10}
+			}
+			return nil
+		}
 		if v == 1 {
 			return []int{v, v, v}
 		}
@@ -652,7 +661,7 @@ func flatMapProducer(x *mc.X, inputs [][]int, name string, pkg bool) {
 	for _, v := range data {
 		want = append(want, sub(v)...)
 	}
-	label := []string{"v==0?zero:[v,v+10]", "[v]", "Empty", "v==1?[v,v,v]:zero"}[g]
+	label := []string{"v==0?zero:[v,v+10]", "[v]", "Empty", "v==1?[v,v,v]:zero", "0:zero 1:[v] 2:[v,v+10]"}[g]
 	drive(x, spec[int]{name: name, label: fmt.Sprintf("%s(%s) over %v", name, label, data), want: want, build: func(e *env) fp.Iterator[int] {
 		f := func(v int) fp.Iterator[int] {
 			e.tick()
